@@ -302,11 +302,36 @@ func checkRandomMap(r *Reporter, p *Prog) {
 			r.Fail("pair/randommap", pkg+".RandomMap.Delete", f.P.posStr(f.Body.Pos()), fmt.Sprintf("delete must move the last key into the hole (back-index updated: %v, slot filled: %v), truncate the key slice (%v) and delete the map entry (%v); resolved stores: %s", okA, okB, okC, okD, strings.Join(seen, "; ")))
 		}
 	}
-	if s, fd := srcOf(p, pkg, "RandomMap", "RandomKey"); fd != nil {
-		if hasAll(s, "return defaultValue,false", "return r.randomKey(),true") {
-			r.Pass("pair/randommap", pkg+".RandomMap.RandomKey", p.posStr(fd.Pos()), "empty map yields (zero, false)")
+	if f := p.CFGOf(pkg, "RandomMap", "RandomKey"); f != nil {
+		// (zero, false) exactly on the edge where the map is known to be empty; a key otherwise
+		empty := f.RelEdgesAt(func(rel Rel) bool {
+			return rel.Op == "==" && rel.L == "0" && (strings.HasSuffix(rel.R, ".keys)") && strings.HasPrefix(rel.R, "len(") || strings.HasSuffix(rel.R, ".rawMap.Size()"))
+		})
+		okAbsent, okPresent, nF, nT := true, true, 0, 0
+		for _, pt := range f.Find(func(n ast.Node) bool { _, ok := n.(*ast.ReturnStmt); return ok }) {
+			rs := f.nodeAt(pt).(*ast.ReturnStmt)
+			if len(rs.Results) != 2 {
+				continue
+			}
+			switch rawKey(rs.Results[1]) {
+			case "false":
+				nF++
+				if _, only := f.OnlyThroughEdges(pt, empty); !only {
+					okAbsent = false
+				}
+			case "true":
+				nT++
+				for _, e := range empty {
+					if _, found := f.reach(Point{e.From.Succs[e.Succ], 0}, nil, func(q Point, atExit bool) bool { return !atExit && f.At(q, pt) }); found {
+						okPresent = false
+					}
+				}
+			}
+		}
+		if okAbsent && okPresent && nF > 0 && nT > 0 && len(empty) > 0 {
+			r.Pass("pair/randommap", pkg+".RandomMap.RandomKey", f.P.posStr(f.Body.Pos()), "empty map yields (zero, false); a key is drawn only when the map is non-empty")
 		} else {
-			r.Fail("pair/randommap", pkg+".RandomMap.RandomKey", p.posStr(fd.Pos()), "RandomKey must report absence for an empty map: "+s)
+			r.Fail("pair/randommap", pkg+".RandomMap.RandomKey", f.P.posStr(f.Body.Pos()), fmt.Sprintf("RandomKey must report absence exactly for an empty map (empty-test edges %d, absent returns %d only-on-empty=%v, present returns %d never-on-empty=%v)", len(empty), nF, okAbsent, nT, okPresent))
 		}
 	}
 }
